@@ -21,6 +21,7 @@ UNDEF = "zz_undef"
 class Entry:
     def __init__(self, id, target, verdict, rule, sites, apply, stage):
         self.id, self.target, self.verdict, self.rule, self.sites, self.apply, self.stage = id, target, verdict, rule, sites, apply, stage
+        self.same = False  # accept entries only: the edit does not change the meaning of the file, so the run must give the same results as the base
 
 
 def reg(id, target, verdict, rule, sites, apply, stage="parse"):
@@ -966,6 +967,31 @@ def _unnested_apply(v, site):
 reg("fw.unnested_cascade", FW, "reject", "cascade.py:264-266, 298-320 every stage must be a subset of the previous stage (InvalidCascade); framework.py:1274-1277", _unnested_sites, _unnested_apply)
 
 
+def _later_stage_sites(v):
+    out = []
+    for ty, names in _body_by_type(v).items():
+        if len(names) >= 2:
+            out += [[ty, i, j] for i in range(min(len(names), 3)) for j in range(min(len(names), 3)) if i != j]
+    return out
+
+
+def _later_stage_apply(v, site):
+    ty, i, j = site
+    names = _body_by_type(v)[ty]
+    # stage three is a subset of stage one but not of stage two
+    _append_table(_casc_sheet(v), [["zz cascade", "Constituents"], ["Stage one", ", ".join(names)], ["Stage two", names[i]], ["Stage three", "%s, %s" % (names[i], names[j])]])
+
+
+reg(
+    "fw.unnested_later_stage",
+    FW,
+    "reject",
+    "cascade.py:264 'A cascade is invalid if any stage does not contain a compartment that appears in subsequent stages', 298-320 each stage is compared with the stage immediately before it (InvalidCascade)",
+    _later_stage_sites,
+    _later_stage_apply,
+)
+
+
 def _fallback_sites(v):
     names = [n for ns in _body_by_type(v).values() for n in ns]
     t = v.tab("characteristics")
@@ -1376,6 +1402,95 @@ reg(
     "parameters.py:408-416 'Keep only valid populations (discard any extra ones here)': a row for a population that is not defined is ignored",
     lambda v: _tv_sites(v, pred=lambda t, r: t.has_data(r), nt=4, nr=1),
     _db_extra_row,
+    "semantic",
+)
+
+
+# ---- 'All' rows: data.py:504-510 an 'all'/'All' row is the fallback for populations WITHOUT a row of their own; parameters.py:408-414 a
+#      population's own row always takes precedence; data.py:512-513 every row that is present (the 'All' row included) needs data
+ALL_LABELS = ["All", "all"]
+
+
+def _all_row_sites(v):
+    pops = [p["code"] for p in v.pops] + [p["label"] for p in v.pops]
+    out = []
+    for i, t in enumerate(v.required_tables()[:8]):
+        if _has_all_row(t):
+            continue
+        for k, r in enumerate(t.rows[:3]):
+            if t.label(r) in pops and t.has_data(r):
+                out += [[i, k, j] for j in range(len(ALL_LABELS))]
+    return out
+
+
+def _add_all_row(t, r, label, with_data=True):
+    """append an 'All' row to table t that carries the units and (optionally) the data of row r; returns its row number"""
+    new = t.r1 + 1
+    t.ws.insert_rows(new)
+    _copy_row(t.ws, r, new, t.last_col())
+    t.ws.cell(row=new, column=1).value = label
+    if not with_data:
+        for c in t.value_cols():
+            t.ws.cell(row=new, column=c).value = None
+    return new
+
+
+def _all_replaces_row(v, site):
+    t = v.required_tables()[site[0]]
+    r = t.rows[site[1]]
+    _add_all_row(t, r, ALL_LABELS[site[2]])
+    t.ws.delete_rows(r)
+
+
+reg(
+    "db.all_row_replaces_population_row",
+    DB,
+    "accept",
+    "data.py:504-510 'If the TDVE table contains an entry for all then ... a fallback value will be available for every population'; parameters.py:408-414: a population without a row of its own takes the 'all'/'All' row - same values, so same results",
+    _all_row_sites,
+    _all_replaces_row,
+    "semantic",
+)
+ENTRIES["db.all_row_replaces_population_row"].same = True
+
+
+def _all_with_blank_row(v, site):
+    t = v.required_tables()[site[0]]
+    r = t.rows[site[1]]
+    _add_all_row(t, r, ALL_LABELS[site[2]])
+    t.blank_values(r)
+
+
+reg(
+    "db.all_row_with_blank_population_row",
+    DB,
+    "reject",
+    "data.py:512-513 every row that is present needs data ('Data values missing for <quantity> (<population>)'); the 'All' row only stands in for populations that have no row (parameters.py:408-414: `if k in tdve.ts` comes first)",
+    _all_row_sites,
+    _all_with_blank_row,
+    "semantic",
+)
+
+
+def _empty_all_sites(v):
+    return [[i, k, j, d] for i, k, j in _all_row_sites(v) for d in (0, 1)]
+
+
+def _empty_all_row(v, site):
+    t = v.required_tables()[site[0]]
+    r = t.rows[site[1]]
+    _add_all_row(t, r, ALL_LABELS[site[2]], with_data=False)
+    if site[3]:
+        t.ws.delete_rows(r)
+
+
+reg(
+    "db.empty_all_row",
+    DB,
+    "reject",
+    "data.py:512-513 the 'All' row is a row like any other and needs data ('Data values missing for <quantity> (All)'), whether or not the population rows are present",
+    _empty_all_sites,
+    _empty_all_row,
     "semantic",
 )
 
@@ -2088,3 +2203,10 @@ def _pb_comment_table_apply(v, site):
 
 reg("pb.comment_below_targeting", PB, "accept", "docs/general/skipping-excel-cells.ipynb (Program targeting: extra content can be placed below the main table after a blank row); programs.py:562", lambda v: [0] if "Program targeting" in v.ws else [], _pb_comment_table_apply, "semantic")
 reg("pb.identity", PB, "accept", "unchanged valid program book", lambda v: [0], lambda v, site: None, "semantic")
+
+
+for _id in (
+    "fw.identity", "fw.ignore_row", "fw.blank_row_in_table", "fw.extra_column", "fw.extra_sheet", "fw.header_case_and_spaces", "fw.reorder_columns", "fw.transition_corner_label", "fw.capitalised_format",
+    "db.identity", "db.ignore_row", "db.ignore_column", "db.ignored_sheet", "db.legacy_or_blank_units", "db.extra_unknown_population_row",
+):
+    ENTRIES[_id].same = True
